@@ -374,14 +374,17 @@ impl StrExt for str {
             let mut chunk_start = 0;
 
             for (i, c) in pattern.char_indices() {
-                if matches!(c, '?' | '*') && !prev_wildcard {
+                let is_wildcard = matches!(c, '?' | '*');
+
+                if is_wildcard && !prev_wildcard {
                     if i != 0 {
                         chunks.push(regex::escape(&pattern[chunk_start..i]));
                         chunk_start = i;
                     }
 
                     prev_wildcard = true;
-                } else if prev_wildcard {
+                } else if !is_wildcard && prev_wildcard {
+                    // The run of consecutive wildcards ends here.
                     let chunk = &pattern[chunk_start..i];
                     chunks.push(chunk.wildcards_to_regex());
 
